@@ -127,14 +127,22 @@ def shard(lines, k):
 
 
 def run_both(cfg, kind, lines, guard=False, jobs=8):
-    """parallel over shards; returns (impl_obs, model_obs)"""
+    """parallel over round-robin shards (so that a run of heavy cases is spread over all workers);
+    returns (impl_obs, model_obs) in input order"""
     from concurrent.futures import ThreadPoolExecutor
-    parts = shard(lines, jobs)
+    jobs = max(1, min(jobs, len(lines) or 1))
+    parts = [lines[i::jobs] for i in range(jobs)]
     with ThreadPoolExecutor(jobs * 2) as ex:
         fi = [ex.submit(run_impl, cfg, kind, p, guard) for p in parts]
         fm = [ex.submit(run_model, cfg, p) for p in parts]
-        impl = [x for f in fi for x in f.result()]
-        model = [x for f in fm for x in f.result()]
+        ri = [f.result() for f in fi]
+        rm = [f.result() for f in fm]
+    impl = [None] * len(lines)
+    model = [None] * len(lines)
+    for k in range(jobs):
+        for j, (a, b) in enumerate(zip(ri[k], rm[k])):
+            impl[k + j * jobs] = a
+            model[k + j * jobs] = b
     return impl, model
 
 
